@@ -7,14 +7,24 @@
 //! `ContinuityStore` API and through the real HTTP routes. The oracle is a byte diff of
 //! `events.jsonl` around every call, parsed independently (`truth.rs`), judged against the cut
 //! rule of ADR-0009 re-implemented here from the raw frames.
+//!
+//! A second workload class runs the same calls WHILE 1..3 appender threads extend the source thread
+//! (messages, run frames, side effects, cursors, checkpoints; seeded delays at the `log.append.*` /
+//! `cont.cache.*` hook points). Those calls are judged on the FINAL parent log with a window instead
+//! of a byte diff: the recorded cut must lie between the head the parent certainly had when the call
+//! started and the head found in events.jsonl after it returned, and the recorded message must be
+//! what the cut rule above gives on the parent log PREFIX up to the recorded cut.
 
 use crate::fixture::{runtime, App, Store};
 use crate::gen_hist::{exec, pick_kind, Known, OpKind};
 use crate::prng::Rng;
 use crate::report::{Cfg, Report};
+use crate::sched::sched;
 use crate::truth::{self, Frame};
 use serde_json::{json, Value};
-use std::collections::BTreeMap;
+use std::collections::{BTreeMap, BTreeSet};
+use std::sync::atomic::{AtomicBool, AtomicU64, Ordering};
+use std::sync::{Arc, Mutex};
 
 const SIG_UNRESOLVABLE: &str = "C10/handoff_unresolvable_summary/nonexistent_summary_artifact_id";
 
@@ -27,9 +37,14 @@ pub fn run(cfg: &Cfg) -> i32 {
          non-message|other-thread|malformed, both} x summary {text, existing id, missing id, neither, both} x \
          transport {store API, HTTP route}; every call is judged on the byte diff of events.jsonl; a call is \
          non-trivial when it reached the store's branch/handoff code; distinct = (op, selector class, summary \
-         class, transport, history shape, outcome)",
+         class, transport, history shape, outcome). Every third history is followed by a CONCURRENT case: the \
+         same calls (default cut, from_seq below / at / just past the live head, from_message_id of old and \
+         freshly acknowledged messages, invalid selectors; API and HTTP) while 1..3 threads append to the source \
+         thread under seeded hook-point delays, judged on the final log (cut inside the [head at call start, head \
+         at return] window, message = cut rule on the log prefix up to the cut, every new parent frame carries an \
+         appender's actor id, each child opens with creation + lineage)",
     );
-    r.assume("calls are sequential: the property quantifies over histories and inputs, not schedules");
+    r.assume("sequential cases: the property quantifies over histories and inputs; a source thread that is being appended to while the call runs is one more history, so concurrent cases only demand what holds for every linearisation of the call between its start and its return");
     r.assume("a summary is 'resolvable' when the lineage frame carries summary_markdown or its summary_artifact_id names a blob under <ws>/.rip/artifacts/blobs that parses as JSON");
     let rt = runtime(2);
     let mut stats = Stats::default();
@@ -44,6 +59,11 @@ pub fn run(cfg: &Cfg) -> i32 {
         let w = doc.get("witness").cloned().unwrap_or(Value::Null);
         if w.get("directed").is_some() {
             directed(cfg, &mut r, &rt, &mut stats);
+        } else if let (Some(true), Some(idx)) = (w.get("concurrent").and_then(|x| x.as_bool()), w.get("case").and_then(|x| x.as_u64())) {
+            // schedule-dependent: the same case is run a few times
+            for _ in 0..8 {
+                concurrent_case(cfg, &mut r, &rt, seed, idx, &mut stats);
+            }
         } else if let Some(idx) = w.get("case").and_then(|x| x.as_u64()) {
             let mut rng = Rng::derive(seed, idx);
             one_case(cfg, &mut r, &rt, &mut rng, idx, &mut stats);
@@ -60,6 +80,7 @@ pub fn run(cfg: &Cfg) -> i32 {
 
     let max_cases = cfg.tier.pick(480u64, 1_000_000u64);
     let mut case = 0u64;
+    let mut mine_n = 0u64;
     while case < max_cases && !r.over(cfg) {
         let idx = case;
         case += 1;
@@ -68,8 +89,16 @@ pub fn run(cfg: &Cfg) -> i32 {
         }
         let mut rng = cfg.case_rng(idx);
         one_case(cfg, &mut r, &rt, &mut rng, idx, &mut stats);
+        // every third history of this shard is followed by a case with concurrent appenders
+        if mine_n % 3 == 0 && !r.over(cfg) {
+            concurrent_case(cfg, &mut r, &rt, cfg.seed, idx, &mut stats);
+        }
+        mine_n += 1;
     }
     stats.flush(&mut r);
+    if stats.conc_calls == 0 {
+        r.inconclusive("no branch/handoff call was made while appenders were running");
+    }
     if stats.calls_reached_store == 0 {
         r.fatal_inconclusive("no branch/handoff call reached the store");
     }
@@ -80,6 +109,7 @@ pub fn run(cfg: &Cfg) -> i32 {
 #[derive(Default)]
 struct Stats {
     calls_reached_store: u64,
+    conc_calls: u64,
     counters: BTreeMap<String, u64>,
     http_status: BTreeMap<String, u64>,
 }
@@ -1112,6 +1142,628 @@ fn one_case(cfg: &Cfg, r: &mut Report, rt: &tokio::runtime::Runtime, rng: &mut R
         }
     }
     stats.c("histories");
+}
+
+// ---------------------------------------------------------------------------------------------
+// concurrent appends to the source thread while branches / handoffs are created
+
+const APPENDER_ACTOR_PREFIX: &str = "rv-app-";
+
+struct Shared {
+    stop: AtomicBool,
+    /// appender calls that returned Ok: each of them put (at least) one frame on the source thread, all of
+    /// it under the store's append lock, so `head0 + completed` frames are certainly there — log and
+    /// sidecar — when the counter is read
+    completed: AtomicU64,
+    errors: AtomicU64,
+    /// acknowledged message ids of the source thread, in acknowledgement order
+    msgs: Mutex<Vec<String>>,
+}
+
+struct ConcCall {
+    n: usize,
+    op: Op,
+    http: bool,
+    sel: Selector,
+    sum_class: &'static str,
+    /// head of the source thread certainly reached when the call started
+    lower: u64,
+    /// head of the source thread in events.jsonl read after the call returned (None: unreadable)
+    upper: Option<u64>,
+    res: CallOutcome,
+}
+
+/// seq of the last whole line of the source thread in events.jsonl
+fn head_in_file(store: &Store, root: &str) -> Option<u64> {
+    let mut b = store.log_bytes();
+    match b.iter().rposition(|c| *c == b'\n') {
+        Some(p) => b.truncate(p + 1),
+        None => b.clear(),
+    }
+    for line in b.split(|c| *c == b'\n').rev() {
+        if line.is_empty() {
+            continue;
+        }
+        let v: Value = serde_json::from_slice(line).ok()?;
+        let f = Frame { line_no: 0, v };
+        if f.stream_kind() == "continuity" && f.stream_id() == root {
+            return Some(f.seq());
+        }
+    }
+    None
+}
+
+fn prefix_view(parent_frames: &[Frame], root: &str, upto: u64) -> Option<ParentView> {
+    let pre: Vec<Frame> = parent_frames.iter().filter(|f| f.seq() <= upto).cloned().collect();
+    parent_view(&pre, root)
+}
+
+fn appender(st: Arc<ripd::ContinuityStore>, sh: Arc<Shared>, root: String, tag: String, t: usize, mut rng: Rng, cap: u64) -> (u64, [u64; 6]) {
+    let actor = format!("{APPENDER_ACTOR_PREFIX}{t}");
+    let origin = "rv".to_string();
+    let mut open: Vec<(String, String)> = Vec::new();
+    let mut kinds = [0u64; 6];
+    let mut n = 0u64;
+    while !sh.stop.load(Ordering::SeqCst) && n < cap {
+        n += 1;
+        let tok = format!("{tag}-t{t}#{n}");
+        let recent = {
+            let g = sh.msgs.lock().unwrap_or_else(|e| e.into_inner());
+            if g.is_empty() {
+                None
+            } else {
+                let len = g.len();
+                Some(g[len - 1 - rng.usize(len.min(3))].clone())
+            }
+        };
+        let k = rng.below(100);
+        let res: Result<String, String> = match (k, recent) {
+            (50..=63, Some(m)) => {
+                kinds[1] += 1;
+                let sess = format!("sess-{tok}");
+                let x = st.append_run_spawned(&root, &m, &sess, actor.clone(), origin.clone());
+                if x.is_ok() {
+                    open.push((m, sess));
+                }
+                x
+            }
+            (64..=77, Some(_)) if !open.is_empty() => {
+                kinds[2] += 1;
+                let (m, sess) = open.remove(rng.usize(open.len()));
+                st.append_run_ended(&root, &m, &sess, "completed".into(), actor.clone(), origin.clone())
+            }
+            (78..=87, Some(m)) => {
+                kinds[3] += 1;
+                let link = ripd::ContinuityRunLink {
+                    continuity_id: root.clone(),
+                    message_id: m,
+                    actor_id: actor.clone(),
+                    origin: origin.clone(),
+                };
+                let eff = ripd::ToolSideEffects {
+                    tool_id: format!("tool-{tok}"),
+                    tool_name: "write".into(),
+                    affected_paths: Some(vec![format!("f-{n}.txt")]),
+                    checkpoint_id: None,
+                };
+                st.append_tool_side_effects(&link, &format!("sess-{tok}"), eff)
+            }
+            (88..=93, Some(_)) => {
+                kinds[4] += 1;
+                st.verif_append_provider_cursor_updated(
+                    &root,
+                    "openresponses".into(),
+                    None,
+                    None,
+                    Some(json!({"previous_response_id": format!("resp-{tok}")})),
+                    "set".into(),
+                    None,
+                    Some(format!("sess-{tok}")),
+                    actor.clone(),
+                    origin.clone(),
+                )
+            }
+            (94..=99, Some(m)) => {
+                kinds[5] += 1;
+                let req = ripd::CompactionCheckpointCumulativeV1Request {
+                    summary_markdown: Some(format!("summary {tok}")),
+                    summary_artifact_id: None,
+                    to_message_id: Some(m),
+                    to_seq: None,
+                    stride_messages: None,
+                    actor_id: actor.clone(),
+                    origin: origin.clone(),
+                };
+                st.compaction_checkpoint_cumulative_v1(&root, req).map(|x| x.0)
+            }
+            _ => {
+                kinds[0] += 1;
+                let x = st.append_message(&root, actor.clone(), origin.clone(), tok.clone());
+                if let Ok(id) = &x {
+                    sh.msgs.lock().unwrap_or_else(|e| e.into_inner()).push(id.clone());
+                }
+                x
+            }
+        };
+        match res {
+            Ok(_) => {
+                sh.completed.fetch_add(1, Ordering::SeqCst);
+            }
+            Err(_) => {
+                sh.errors.fetch_add(1, Ordering::SeqCst);
+            }
+        }
+        if rng.chance(1, 6) {
+            std::thread::sleep(std::time::Duration::from_micros(rng.below(200)));
+        }
+    }
+    (n, kinds)
+}
+
+fn pick_conc_selector(rng: &mut Rng, lower: u64, msgs: &[String]) -> Selector {
+    let mk = |class, from_seq, from_message_id| Selector {
+        class,
+        from_seq,
+        from_message_id,
+        raw_seq: None,
+    };
+    loop {
+        match rng.below(20) {
+            0..=6 => return mk("none", None, None),
+            // at, or a few frames past, the head the caller has seen: in range or not depending on what
+            // the appenders do meanwhile
+            7..=10 => return mk("seq_near_live_head", Some(lower + rng.below(5)), None),
+            11 | 12 => return mk("seq_mid", Some(rng.below(lower + 1)), None),
+            13..=16 => {
+                if !msgs.is_empty() {
+                    // freshly acknowledged messages (their runs are being appended right now) or any
+                    let n = msgs.len();
+                    let i = if rng.chance(2, 3) { n - 1 - rng.usize(n.min(4)) } else { rng.usize(n) };
+                    return mk("id_known", None, Some(msgs[i].clone()));
+                }
+            }
+            17 => {
+                let id = format!("{}-{}-4{}-a{}-{}", rng.hex(8), rng.hex(4), rng.hex(3), rng.hex(3), rng.hex(12));
+                return mk("id_unknown", None, Some(id));
+            }
+            18 => return mk("seq_u64_max", Some(u64::MAX), None),
+            _ => {
+                if let Some(m) = msgs.last() {
+                    return mk("both", Some(lower), Some(m.clone()));
+                }
+            }
+        }
+    }
+}
+
+fn concurrent_case(cfg: &Cfg, r: &mut Report, rt: &tokio::runtime::Runtime, seed: u64, idx: u64, stats: &mut Stats) {
+    let mut rng = Rng::derive(seed ^ 0x5c10_c0c0_a99e_17d5, idx);
+    let t_case = std::time::Instant::now();
+    let store = Store::new("c10c");
+    let app = match App::open(&store, None) {
+        Ok(a) => a,
+        Err(e) => {
+            r.inconclusive(&format!("concurrent case {idx}: cannot open engine: {e}"));
+            return;
+        }
+    };
+    let st = app.store();
+    let Ok(root) = st.ensure_default() else {
+        r.inconclusive(&format!("concurrent case {idx}: ensure_default failed"));
+        return;
+    };
+    let tag = format!("c10c-{idx}");
+    // history of the source thread before the concurrent phase
+    let mut known = Known::default();
+    let pre = match rng.below(4) {
+        0 => 0,
+        1 => 1 + rng.usize(4),
+        _ => 5 + rng.usize(cfg.tier.pick(30, 90)),
+    };
+    grow_history(&app, &store, &[root.clone()], &mut known, &mut rng, pre, &tag, false);
+    let bytes0 = store.log_bytes_settled();
+    let Some(view0) = truth::parse_log(&bytes0).ok().and_then(|f| parent_view(&f, &root)) else {
+        r.inconclusive(&format!("concurrent case {idx}: log unreadable before the concurrent phase"));
+        return;
+    };
+    let head0 = view0.head;
+
+    let sh = Arc::new(Shared {
+        stop: AtomicBool::new(false),
+        completed: AtomicU64::new(0),
+        errors: AtomicU64::new(0),
+        msgs: Mutex::new(view0.msgs.iter().map(|(_, id)| id.clone()).collect()),
+    });
+    let appenders = 1 + rng.usize(3);
+    let noise_us = *rng.pick(&[30u64, 120, 120, 400]);
+    let s = sched();
+    s.reset();
+    s.set_noise(rng.next_u64(), &[("log.append.*", noise_us), ("cont.cache.*", noise_us)]);
+    let cap = cfg.tier.pick(700u64, 1500u64);
+    let mut handles = Vec::new();
+    for t in 0..appenders {
+        let (st, sh, root, tag) = (st.clone(), sh.clone(), root.clone(), tag.clone());
+        let trng = Rng::derive(rng.next_u64(), t as u64);
+        handles.push(std::thread::spawn(move || appender(st, sh, root, tag, t, trng, cap)));
+    }
+
+    let ncalls = 8 + rng.usize(cfg.tier.pick(8, 16));
+    let mut calls: Vec<ConcCall> = Vec::new();
+    let t_phase = std::time::Instant::now();
+    for n in 0..ncalls {
+        if r.over(cfg) && n >= 4 {
+            break;
+        }
+        let msgs_now: Vec<String> = sh.msgs.lock().unwrap_or_else(|e| e.into_inner()).clone();
+        let op = if rng.bool() { Op::Branch } else { Op::Handoff };
+        let http = rng.chance(1, 3);
+        let sum = if op == Op::Handoff {
+            Some(if rng.chance(1, 10) {
+                Summary {
+                    class: "neither",
+                    markdown: None,
+                    artifact_id: None,
+                    artifact_exists: false,
+                }
+            } else {
+                Summary {
+                    class: "text",
+                    markdown: Some(format!("### handoff {tag}-{n}\n")),
+                    artifact_id: None,
+                    artifact_exists: false,
+                }
+            })
+        } else {
+            None
+        };
+        let lower = head0 + sh.completed.load(Ordering::SeqCst);
+        let sel = pick_conc_selector(&mut rng, lower, &msgs_now);
+        let res = do_call(rt, &app, stats, op, http, &root, &sel, sum.as_ref(), Some(format!("t-conc-{n}")));
+        let upper = head_in_file(&store, &root);
+        calls.push(ConcCall {
+            n,
+            op,
+            http,
+            sel,
+            sum_class: sum.as_ref().map(|s| s.class).unwrap_or("-"),
+            lower,
+            upper,
+            res,
+        });
+        if rng.chance(1, 3) {
+            std::thread::sleep(std::time::Duration::from_micros(rng.below(400)));
+        }
+    }
+    sh.stop.store(true, Ordering::SeqCst);
+    let mut appended_ops = 0u64;
+    let mut kinds = [0u64; 6];
+    let mut appender_died = false;
+    for h in handles {
+        match h.join() {
+            Ok((n, k)) => {
+                appended_ops += n;
+                for i in 0..6 {
+                    kinds[i] += k[i];
+                }
+            }
+            Err(_) => appender_died = true,
+        }
+    }
+    s.reset();
+    *stats.counters.entry("conc_phase_wall_ms".into()).or_insert(0) += t_phase.elapsed().as_millis() as u64;
+    if appender_died {
+        r.inconclusive(&format!("concurrent case {idx}: an appender thread panicked; case not judged"));
+        return;
+    }
+
+    // ---- judge on the final log
+    let bytes1 = store.log_bytes_settled();
+    if !bytes1.starts_with(&bytes0) {
+        r.inconclusive("events.jsonl is not an extension of its earlier bytes after a concurrent phase (C02 matter); case not judged");
+        return;
+    }
+    let frames = match truth::parse_log(&bytes1) {
+        Ok(f) => f,
+        Err(e) => {
+            r.inconclusive(&format!("concurrent case {idx}: final log unreadable: {}", e.detail));
+            return;
+        }
+    };
+    if let Err(e) = truth::check_streams(&frames) {
+        r.violation(
+            &format!("C10/stream_order_after_branching/{}", e.kind),
+            &format!("per-stream seq broken after a concurrent branch/handoff workload: {}", e.detail),
+            json!({"case": idx, "concurrent": true, "detail": e.detail}),
+        );
+        return;
+    }
+    let pframes: Vec<Frame> = truth::stream(&frames, "continuity", &root).into_iter().cloned().collect();
+    let final_head = pframes.last().map(|f| f.seq()).unwrap_or(0);
+    let base_wit = json!({
+        "case": idx, "concurrent": true, "appenders": appenders, "noise_us": noise_us,
+        "parent_head_before": head0, "parent_head_final": final_head,
+        "note": "schedule-dependent; --replay runs the case 8 times",
+    });
+    let acked = sh.completed.load(Ordering::SeqCst);
+    stats.c("conc_cases");
+    *stats.counters.entry("conc_appender_ops".into()).or_insert(0) += appended_ops;
+    *stats.counters.entry("conc_appender_ops_acked".into()).or_insert(0) += acked;
+    *stats.counters.entry("conc_appender_errors".into()).or_insert(0) += sh.errors.load(Ordering::SeqCst);
+    *stats.counters.entry("conc_parent_frames_appended".into()).or_insert(0) += final_head - head0;
+    for (i, name) in ["message", "run_spawned", "run_ended", "side_effects", "cursor", "checkpoint"].iter().enumerate() {
+        *stats.counters.entry(format!("conc_appender_{name}")).or_insert(0) += kinds[i];
+    }
+    if final_head < head0 + acked {
+        r.violation(
+            "C10/concurrent/acknowledged_parent_appends_missing",
+            &format!("{acked} appends to the source thread were acknowledged during the phase, its head moved from {head0} to {final_head} only"),
+            base_wit.clone(),
+        );
+        return;
+    }
+
+    // (1) the source thread holds nothing but the appenders' frames
+    for f in pframes.iter().filter(|f| f.seq() > head0) {
+        if !f.s("actor_id").starts_with(APPENDER_ACTOR_PREFIX) {
+            let mut w = base_wit.clone();
+            w["frame"] = f.v.clone();
+            r.violation(
+                &format!("C10/parent_stream_touched/concurrent/{}", f.ty()),
+                &format!(
+                    "the source thread got a {} frame (seq {}, actor {:?}) that no appender wrote while branches/handoffs were created",
+                    f.ty(),
+                    f.seq(),
+                    f.s("actor_id")
+                ),
+                w,
+            );
+            break;
+        }
+    }
+
+    let mut children: BTreeSet<String> = BTreeSet::new();
+    for c in &calls {
+        r.eval();
+        stats.calls_reached_store += 1;
+        stats.conc_calls += 1;
+        let transport = if c.http { "http" } else { "api" };
+        stats.c(&format!("conc_calls_{}_{}", c.op.name(), transport));
+        stats.c(&format!("conc_selector_{}", c.sel.class));
+        let upper = c.upper.unwrap_or(final_head).min(final_head);
+        let overlapped = upper > c.lower;
+        if overlapped {
+            stats.c("conc_calls_overlapped_by_parent_appends");
+        }
+        let wit = |extra: Value| {
+            let mut w = base_wit.clone();
+            if let Some(o) = w.as_object_mut() {
+                o.insert("call".into(), json!(c.n));
+                o.insert("op".into(), json!(c.op.name()));
+                o.insert("transport".into(), json!(transport));
+                o.insert("selector_class".into(), json!(c.sel.class));
+                o.insert("from_seq".into(), json!(c.sel.from_seq));
+                o.insert("from_message_id".into(), json!(c.sel.from_message_id));
+                o.insert("summary_class".into(), json!(c.sum_class));
+                o.insert("parent_head_certain_at_call_start".into(), json!(c.lower));
+                o.insert("parent_head_in_log_after_return".into(), json!(upper));
+                o.insert("response".into(), json!(c.res.detail));
+                o.insert("detail".into(), extra);
+            }
+            w
+        };
+        // what every linearisation between start and return answers
+        let must_reject = c.sum_class == "neither"
+            || matches!(c.sel.class, "id_unknown" | "seq_u64_max" | "both")
+            || c.sel.from_seq.map(|q| q > upper).unwrap_or(false);
+        let must_accept = !must_reject
+            && match c.sel.class {
+                "none" | "id_known" => true,
+                _ => c.sel.from_seq.map(|q| q <= c.lower).unwrap_or(false),
+            };
+        let outcome;
+        match &c.res.ok {
+            None => {
+                outcome = "rejected";
+                stats.c("conc_calls_rejected");
+                if must_accept {
+                    r.violation(
+                        &format!("C10/rejected_valid_request/concurrent/{}/{}", c.op.name(), c.sel.class),
+                        &format!(
+                            "{} with a selector that is valid for every state of the source thread between call start and return ({}) was rejected: {}",
+                            c.op.name(),
+                            c.sel.class,
+                            c.res.detail
+                        ),
+                        wit(Value::Null),
+                    );
+                }
+            }
+            Some((child, rcut, rmsg)) => {
+                outcome = "accepted";
+                stats.c("conc_calls_accepted");
+                children.insert(child.clone());
+                if must_reject {
+                    r.violation(
+                        &format!("C10/accepted_invalid_request/concurrent/{}/{}/{}", c.op.name(), c.sel.class, c.sum_class),
+                        &format!(
+                            "{} accepted a request that is invalid for every state of the source thread between call start and return (selector {}, from_seq {:?}, head after return {}, summary {})",
+                            c.op.name(),
+                            c.sel.class,
+                            c.sel.from_seq,
+                            upper,
+                            c.sum_class
+                        ),
+                        wit(Value::Null),
+                    );
+                }
+                // the child opens with creation + lineage (nobody appends to children in this phase)
+                let cf = truth::stream(&frames, "continuity", child);
+                let shape_ok = cf.len() == 2
+                    && cf[0].ty() == "continuity_created"
+                    && cf[0].seq() == 0
+                    && cf[1].ty() == c.op.lineage_type()
+                    && cf[1].seq() == 1;
+                if !shape_ok {
+                    r.violation(
+                        &format!("C10/child_prefix_wrong/concurrent/{}", c.op.name()),
+                        &format!(
+                            "the thread created by {} does not consist of continuity_created(seq 0) + {}(seq 1): {:?}",
+                            c.op.name(),
+                            c.op.lineage_type(),
+                            cf.iter().map(|f| format!("{}#{}", f.ty(), f.seq())).collect::<Vec<_>>()
+                        ),
+                        wit(json!({"child": cf.iter().map(|f| f.v.clone()).collect::<Vec<_>>()})),
+                    );
+                    continue;
+                }
+                let lin = cf[1];
+                let fmsg = lin.v.get(c.op.msg_field()).and_then(|x| x.as_str()).map(|s| s.to_string());
+                if lin.s(c.op.parent_field()) != root {
+                    r.violation(
+                        &format!("C10/lineage_names_wrong_parent/{}", c.op.name()),
+                        &format!("lineage frame names parent {} instead of {}", lin.s(c.op.parent_field()), root),
+                        wit(json!({"frame": lin.v})),
+                    );
+                }
+                let Some(fcut) = lin.u(c.op.cut_field()) else {
+                    r.violation(
+                        &format!("C10/cut_beyond_parent_head/concurrent/{}/{}", c.op.name(), c.sel.class),
+                        "the lineage frame records no cut seq",
+                        wit(json!({"frame": lin.v})),
+                    );
+                    continue;
+                };
+                if Some(*rcut) != Some(fcut) || rmsg != &fmsg {
+                    r.violation(
+                        &format!("C10/response_differs_from_frame/{}/{}", c.op.name(), transport),
+                        &format!("response says cut {rcut} message {rmsg:?}, lineage frame says {fcut} {fmsg:?}"),
+                        wit(json!({"frame": lin.v})),
+                    );
+                }
+                // the cut lies within the source thread as it was at some moment of the call
+                if fcut > upper {
+                    r.violation(
+                        &format!("C10/cut_beyond_parent_head/concurrent/{}/{}", c.op.name(), c.sel.class),
+                        &format!(
+                            "recorded cut {fcut} lies beyond the head ({upper}) the source thread had in events.jsonl after the call returned"
+                        ),
+                        wit(json!({"frame": lin.v})),
+                    );
+                    continue;
+                }
+                if c.sel.class == "none" {
+                    if fcut < c.lower {
+                        r.violation(
+                            &format!("C10/concurrent/default_cut_before_head_at_call_start/{}", c.op.name()),
+                            &format!(
+                                "default cut recorded as {fcut}, but {} frames of the source thread were acknowledged before the call started",
+                                c.lower
+                            ),
+                            wit(json!({"frame": lin.v})),
+                        );
+                    } else if fcut > c.lower {
+                        stats.c("conc_default_cuts_past_head_at_call_start");
+                    }
+                }
+                // the cut rule on the parent log prefix up to the recorded cut …
+                let Some(pv) = prefix_view(&pframes, &root, fcut) else {
+                    continue;
+                };
+                match expect_for(&pv, &c.sel) {
+                    Expect::Accept { cut, msg } => {
+                        if cut != fcut {
+                            r.violation(
+                                &format!("C10/cut_wrong/concurrent/{}/{}", c.op.name(), c.sel.class),
+                                &format!("recorded cut {fcut}; the ADR-0009 rule on the source thread up to seq {fcut} gives {cut}"),
+                                wit(json!({"frame": lin.v, "expected_cut": cut})),
+                            );
+                        }
+                        if msg != fmsg {
+                            r.violation(
+                                &format!("C10/cut_message_wrong/concurrent/{}/{}", c.op.name(), c.sel.class),
+                                &format!(
+                                    "recorded (cut {fcut}, message {fmsg:?}): the last message of the source thread at or before seq {fcut} is {msg:?}"
+                                ),
+                                wit(json!({"frame": lin.v, "expected_message": msg})),
+                            );
+                        } else {
+                            stats.c("conc_lineage_records_matching_parent_prefix");
+                        }
+                    }
+                    Expect::Reject => {
+                        r.violation(
+                            &format!("C10/cut_wrong/concurrent/{}/{}", c.op.name(), c.sel.class),
+                            &format!("recorded cut {fcut}, but on the source thread up to seq {fcut} the selector does not resolve at all"),
+                            wit(json!({"frame": lin.v})),
+                        );
+                    }
+                }
+                // … and, for a message selector, the end of the run that answered it as far as it was
+                // certainly there when the call started
+                if let (Some(m), true) = (&c.sel.from_message_id, c.sel.from_seq.is_none()) {
+                    if c.lower > fcut {
+                        if let Some(later) = prefix_view(&pframes, &root, c.lower).and_then(|v| v.related_max.get(m).copied()) {
+                            if later > fcut {
+                                r.violation(
+                                    &format!("C10/cut_wrong/concurrent_related_frame_missed/{}", c.op.name()),
+                                    &format!(
+                                        "cut for message {m} recorded as {fcut}; a run frame of that message at seq {later} was acknowledged before the call started"
+                                    ),
+                                    wit(json!({"frame": lin.v})),
+                                );
+                            }
+                        }
+                    }
+                }
+                if c.op == Op::Handoff {
+                    let f_md = lin.v.get("summary_markdown").and_then(|x| x.as_str());
+                    let f_art = lin.v.get("summary_artifact_id").and_then(|x| x.as_str());
+                    if f_md.is_none() && !f_art.map(|a| blob_json(&store, a).is_some()).unwrap_or(false) {
+                        r.violation(
+                            &format!("C10/handoff_unresolvable_summary/{}", c.sum_class),
+                            "handoff created while the source thread was appended to carries no resolvable summary",
+                            wit(json!({"frame": lin.v})),
+                        );
+                    }
+                }
+            }
+        }
+        r.distinct_str(&format!(
+            "conc|{}|{}|{}|{}|{}|{}|a{}",
+            c.op.name(),
+            c.sel.class,
+            c.sum_class,
+            transport,
+            outcome,
+            overlapped as u8,
+            appenders
+        ));
+        if r.samples.len() + 2 < r.max_samples && c.n == 0 {
+            r.sample(wit(json!({"outcome": outcome})));
+        }
+    }
+    // (4) nothing else was appended: every frame of the phase is an appender's or belongs to a reported child
+    if let Ok(added) = truth::parse_log(&bytes1[bytes0.len()..]) {
+        if let Some(f) = added.iter().find(|f| {
+            !(f.stream_kind() == "continuity" && (children.contains(f.stream_id()) || f.stream_id() == root))
+                && !f.s("actor_id").starts_with(APPENDER_ACTOR_PREFIX)
+        }) {
+            let mut w = base_wit.clone();
+            w["frame"] = f.v.clone();
+            r.violation(
+                "C10/rejected_call_appended/concurrent",
+                &format!(
+                    "a {} frame on stream {} {} belongs neither to the source thread nor to a thread reported by an accepted call",
+                    f.ty(),
+                    f.stream_kind(),
+                    if children.is_empty() { "(no call was accepted)" } else { "(not one of the reported children)" }
+                ),
+                w,
+            );
+        }
+        *stats.counters.entry("conc_frames_judged".into()).or_insert(0) += added.len() as u64;
+    }
+    *stats.counters.entry("conc_case_wall_ms".into()).or_insert(0) += t_case.elapsed().as_millis() as u64;
 }
 
 /// Directed cases that run on every invocation.
